@@ -27,8 +27,8 @@ def run(ctx):
     from AoE2ScenarioParser.helper.helper import xy_to_i, i_to_xy
 
     R = common.Result(
-        "depth-first over all resize histories of length <= 3 (sizes 0..8 from start sizes 1..6 in quick, 0..12 from "
-        "1..12 in thorough): dump + O1/O2/O4 at every node; all indices -2..size^2+1 and all coordinates -1..size at "
+        "depth-first over all histories of length <= 3 over {map_size = b, terrain = reversed tiles, terrain = tiles "
+        "rotated by 1} (b in 0..10 from start sizes 1..8 in quick, 0..12 from 1..12 in thorough): dump + O1/O2/O4 at every node; all indices -2..size^2+1 and all coordinates -1..size at "
         "every node of depth <= 1 (O3); all rectangles x1<=x2,y1<=y2 on sizes <= 7 plus reversed/outside ones (O5); "
         "xy_to_i/i_to_xy on every argument for sizes 0..12; terrain setter on every length 0..40; seeded random "
         "histories/indices/rectangles up to size 240. non-trivial = resize that changes the size with both sizes >= 1, "
@@ -178,6 +178,38 @@ def run(ctx):
                         return
         check_division(b)
 
+    def do_perm(kind, k, hist):
+        """terrain = a permutation of the tile objects the manager holds (reverse / rotate by k): O1, O2, contents follow"""
+        a, before = snapshot()
+        objs = list(mm.terrain)
+        new = objs[::-1] if kind == "reverse" else objs[k:] + objs[:k]
+        want = before[::-1] if kind == "reverse" else before[k:] + before[:k]
+
+        def assign():
+            mm.terrain = new
+        st, _ = common.outcome(assign)
+        h2 = hist + [(kind, k)]
+        cmd = "reverse" if kind == "reverse" else f"rotate {k}"
+        R.case(key=("perm",) + tuple(map(tuple, h2)), nontrivial=a >= 2, tags=("terrain:permute", f"depth{len(h2) - 1}"))
+        if st != "ok":
+            add(cmd, "error", h2)
+            violation({"op": "terrain", "class": "square-rejected"}, f"terrain = permutation of the {a}x{a} tiles raised", {"op": "history", "history": h2})
+            return
+        add(cmd, "ok " + dump(), h2)
+        check_geometry(h2)
+        s2, after = snapshot()
+        if s2 != a or after != want or any(u is not v for u, v in zip(mm.terrain, new)):
+            violation({"op": "terrain", "class": "content-changed"}, f"terrain = permutation of the tiles: contents/objects not in the assigned order ({h2})",
+                      {"op": "history", "history": h2})
+
+    def do_op(op, hist):
+        if op[0] == "size":
+            do_size(op[1], hist)
+        elif op[0] == "terrain":
+            do_terrain(op[1], 0, hist)
+        else:
+            do_perm(op[0], op[1], hist)
+
     def do_get(x, y, i, hist, tag="get"):
         s = mm.map_size
         ts = mm.terrain
@@ -293,8 +325,8 @@ def run(ctx):
             sweep_gets([("terrain", rp["size"] ** 2)])
         elif rp.get("op") == "history":
             h = rp["history"]
-            for k, (op, n) in enumerate(h):
-                (do_terrain(n, 0, h[:k]) if op == "terrain" else do_size(n, h[:k]))
+            for k, op in enumerate(h):
+                do_op(tuple(op), [tuple(o) for o in h[:k]])
             sweep_gets(h)
         elif rp.get("op") == "square":
             do_terrain(rp["size"] ** 2, 0, [])
@@ -329,8 +361,8 @@ def run(ctx):
         base += n
 
     # ------------------------------------------------------------------ depth-first over resize histories
-    starts = range(1, 7) if ctx.quick else range(1, 13)
-    alphabet = list(range(0, 9)) if ctx.quick else list(range(0, 13))
+    starts = range(1, 9) if ctx.quick else range(1, 13)
+    alphabet = list(range(0, 11)) if ctx.quick else list(range(0, 13))
     max_depth = 3
     rect_starts = {3, 6} if ctx.quick else {2, 3, 5, 6, 9, 12}
 
@@ -354,10 +386,10 @@ def run(ctx):
         if depth == max_depth:
             return
         saved = list(mm.terrain)
-        for b in alphabet:
+        for op in [("size", b) for b in alphabet] + [("reverse", 0), ("rotate", 1)]:
             add("push", "ok")
-            do_size(b, hist)
-            dfs(hist + [("size", b)], depth + 1, start)
+            do_op(op, hist)
+            dfs(hist + [op], depth + 1, start)
             add("pop", "ok")
             restore(saved)
 
